@@ -116,6 +116,12 @@ type Scenario struct {
 	Crash bool `json:"crash,omitempty"`
 	// Fine enables engine yield points (needs the instrumented overlay build).
 	Fine bool `json:"fine,omitempty"`
+	// BootStates, when set, prepares the store before the Workstream is constructed (C11): one entry per plan out of
+	// notstarted | running | completed | failed; the last recorded activity of every started plan is BootAgeSec
+	// seconds before the Workstream is constructed. No API thread is started.
+	BootStates []string `json:"bootStates,omitempty"`
+	BootAgeSec int      `json:"bootAge,omitempty"`
+	NoRecovery bool     `json:"noRecovery,omitempty"`
 	// SlowPlugins makes "time passes" the default choice while a sequence action's plugin call is parked (the plugin
 	// is slow by default and answering is the deviation); the tick budget bounds it.
 	SlowPlugins bool `json:"slowPlugins,omitempty"`
